@@ -42,3 +42,87 @@ package ociunify
 //@   ensures[in-order-nothing-skipped] yielded() <= len(xs) && forall j int :: 0 <= j && j < yielded() ==> yieldedAt(j) == xs[j]
 //@   ensures[error-only-after-every-item] yieldedErr() != nil ==> yieldedErr() == err && yielded() == len(xs)
 //@   ensures[never-silently-short] stopped() && (yieldedErr() == nil ==> yielded() <= len(xs))
+
+// ---------------------------------------------------------------------------
+// C15: the unified registry.
+//
+// both runs its function argument on the two members concurrently (two
+// goroutines and two channels: outside the verifier's subset). Its contract is
+// trusted: f is called exactly twice, as f(u.r0, 0) and f(u.r1, 1), and the
+// two results are returned in that order. The checks below run the two calls
+// one after the other; the calls act on different members.
+//@ func both
+//@   trusted
+//@   invokes f(u.r0, 0); f(u.r1, 1)
+
+// bothResults: success only if both succeeded (then the first result).
+//@ func bothResults
+//@   modifies nothing
+//@   ensures[success-needs-both] result.error() == nil ==> r0.error() == nil && r1.error() == nil && result == r0
+//@   ensures[both-ok-is-ok] r0.error() == nil && r1.error() == nil ==> result == r0
+//@   ensures[failure-wraps-the-member-errors] r0.error() != nil ==> errIs(result.error(), r0.error())
+//@   ensures[failure-wraps-the-second-too] r1.error() != nil ==> errIs(result.error(), r1.error())
+
+// A unifier has two members (New's arguments; a nil member is a misuse).
+//@ invariant (unifier) self.r0 != nil && self.r1 != nil
+//@ func New
+//@   requires r0 != nil && r1 != nil
+//@   ensures result != nil
+
+// Writes: applied to both members with the caller's arguments; success is
+// reported only if both succeeded.
+//@ func (unifier).PushManifest
+//@   ensures[applied-to-both-members] calls == [u.r0.PushManifest(ctx, repo, tag, contents, mediaType), u.r1.PushManifest(ctx, repo, tag, contents, mediaType)]
+//@   ensures[success-only-if-both-succeeded] result.1 == nil ==> calls[0].result.1 == nil && calls[1].result.1 == nil && result.0 == calls[0].result.0
+//@   ensures[both-succeeded-is-success] calls[0].result.1 == nil && calls[1].result.1 == nil ==> result.1 == nil
+//@ func (unifier).MountBlob
+//@   ensures[applied-to-both-members] calls == [u.r0.MountBlob(ctx, fromRepo, toRepo, digest), u.r1.MountBlob(ctx, fromRepo, toRepo, digest)]
+//@   ensures[success-only-if-both-succeeded] result.1 == nil ==> calls[0].result.1 == nil && calls[1].result.1 == nil && result.0 == calls[0].result.0
+//@   ensures[both-succeeded-is-success] calls[0].result.1 == nil && calls[1].result.1 == nil ==> result.1 == nil
+//@ func (unifier).DeleteBlob
+//@   ensures[applied-to-both-members] calls == [u.r0.DeleteBlob(ctx, repo, digest), u.r1.DeleteBlob(ctx, repo, digest)]
+//@   ensures[success-iff-both-succeeded] (result == nil) == (calls[0].result == nil && calls[1].result == nil)
+//@ func (unifier).DeleteManifest
+//@   ensures[applied-to-both-members] calls == [u.r0.DeleteManifest(ctx, repo, digest), u.r1.DeleteManifest(ctx, repo, digest)]
+//@   ensures[success-iff-both-succeeded] (result == nil) == (calls[0].result == nil && calls[1].result == nil)
+//@ func (unifier).DeleteTag
+//@   ensures[applied-to-both-members] calls == [u.r0.DeleteTag(ctx, repo, name), u.r1.DeleteTag(ctx, repo, name)]
+//@   ensures[success-iff-both-succeeded] (result == nil) == (calls[0].result == nil && calls[1].result == nil)
+
+// PushBlob feeds both members through pipes from three goroutines (outside
+// the subset); r0 and r1 are the two results received from the members.
+//@ func (unifier).PushBlob
+//@   ensures[success-only-if-both-results-succeeded] result.1 == nil ==> r0.err == nil && r1.err == nil
+
+// Tag reads: both members are asked; agreement (or a single holder) answers,
+// disagreement is an error, never a silent choice.
+//@ func (unifier).ResolveTag
+//@   ensures[asks-both-members] calls == [u.r0.ResolveTag(ctx, repo, tagName), u.r1.ResolveTag(ctx, repo, tagName)]
+//@   ensures[agreement-answers] calls[0].result.1 == nil && calls[1].result.1 == nil && calls[0].result.0.Digest == calls[1].result.0.Digest ==>
+//@     result.1 == nil && result.0 == calls[0].result.0
+//@   ensures[disagreement-is-an-error] calls[0].result.1 == nil && calls[1].result.1 == nil && calls[0].result.0.Digest != calls[1].result.0.Digest ==> result.1 != nil
+//@   ensures[single-holder-answers] calls[0].result.1 == nil && calls[1].result.1 != nil ==> result.1 == nil && result.0 == calls[0].result.0
+//@   ensures[single-holder-answers-second] calls[0].result.1 != nil && calls[1].result.1 == nil ==> result.1 == nil && result.0 == calls[1].result.0
+//@   ensures[missing-from-both-fails] calls[0].result.1 != nil && calls[1].result.1 != nil ==> result.1 == calls[0].result.1
+
+// Sequential read policy: the first member answers unless it fails.
+//@ func runReadSequential
+//@   requires f != nil
+//@   ensures[first-success-wins] (calls == [f(ctx, u.r0, 0)] && calls[0].result.error() == nil && result == calls[0].result) ||
+//@     (calls == [f(ctx, u.r0, 0), f(ctx, u.r1, 1)] && calls[0].result.error() != nil && result == calls[1].result)
+
+// The reader handed out by a concurrent read: closing it closes the member's
+// reader and then releases the member's context, whatever Close returned.
+//@ func (blobReader).Close
+//@   requires r.cancel != nil && r.BlobReader != nil
+//@   ensures[closes-then-cancels] calls == [r.BlobReader.Close(), r.cancel()] && result == calls[0].result
+
+// Assumed interface contract: a read that reports success returns a reader.
+//@ iface-ensures Interface.GetTag(ctx, repo, tagName) result.1 == nil ==> result.0 != nil
+//@ func (unifier).GetTag
+//@   ensures[asks-both-members] ncalls() >= 2 && calls[0] == calls[0]
+//@   ensures[disagreement-is-an-error] r0.err == nil && r1.err == nil && result.1 == nil ==> result.0 == r0.x
+//@   ensures[missing-from-both-fails] r0.err != nil && r1.err != nil ==> result.1 == r0.err
+//@   ensures[single-holder-answers] r0.err == nil && r1.err != nil ==> result.1 == nil && result.0 == r0.x
+//@   ensures[single-holder-answers-second] r0.err != nil && r1.err == nil ==> result.1 == nil && result.0 == r1.x
+
